@@ -4,7 +4,8 @@ import KrakenModel.Model.HttpSend
    monitors the property on what the server saw and what Send returned.
 
    cfg  method=<M> path=<str> hdr=<K:v,…|-> kind=none|rew|plain impl=<…> body=<body token>
-        accepted=<codes> extra=<codes|-> bo=none|default|<n> tls=0|1 fb=0|1 ka=0|1
+        accepted=<codes> extra=<codes|-> bo=none|default|<n> tls=0|1 fb=0|1 ka=0|1 [skip=<k>]
+        (skip: the caller had read k bytes of the reader before Send; `body` is what was unread then)
    script <net|n<k>|refuse|s<code>,…>   what the server does with the 1st, 2nd, … connection (`-` = none):
                                         read the request then close | read k body bytes then close |
                                         close before reading anything | answer with a status
@@ -22,6 +23,8 @@ structure St where
   bodyTok : String
   bodyLen : Nat
   ka : Bool
+  skip : Nat := 0          -- bytes of the reader the caller had consumed before Send (not part of the body)
+  impl : String := ""
   script : List Outcome := []
 
 def outcome? (t : String) : Option Outcome :=
@@ -66,7 +69,7 @@ def init (toks : List String) : Option St := do
   -- the model never looks inside the body: the token's characters stand for its bytes
   let body := if bodyLen = 0 then [] else bodyTok.toList.map Char.toNat
   pure { cfg := { req := { method, url := path, headers := hdrs, body, tls }, kind, accepted, extra, bo, fallback := fb },
-         bodyTok, bodyLen, ka }
+         bodyTok, bodyLen, ka, skip := ((kv? toks "skip").bind nat?).getD 0, impl := (kv? toks "impl").getD "" }
 
 def resultTok : Result → String
   | .ok c => s!"ok:{c}"
@@ -209,7 +212,11 @@ def step (s : St) (kind : String) (args impl : List String) : Option (St × Step
     let natt := min (obs.length - 1) 4
     let mode := if fb then "fb" else if s.cfg.req.tls then "tls" else if s.ka then "ka" else "http"
     let pfs := pf1 ++ pf1b ++ pf1c ++ pf2 ++ pf3 ++ pf4 ++ pf5 ++ pf6
-    some (s, { obs := obs, propfails := pfs, branch := s!"send.{mode}.{kindT}.{resT}.att{natt}" })
+    -- a seekable reader handed over mid-way whose first attempt ends retryable with backoff left
+    let preAdv := s.skip > 0 ∧ s.cfg.kind = .plain ∧ (s.impl = "section" ∨ s.impl = "seeker" ∨ s.impl = "file") ∧
+      s.cfg.bo > 0 ∧ wantsRetry s.cfg (s.script.headD .net)
+    let br := if preAdv then "pre-advanced-seekable-body-retried" else s!"send.{mode}.{kindT}.{resT}.att{natt}"
+    some (s, { obs := obs, propfails := pfs, branch := br })
   | _, _ => none
 
 def machine : Machine := { σ := St, name := "send", init := init, step := step }
